@@ -4,6 +4,8 @@ import (
 	"fmt"
 	"strings"
 	"sync"
+
+	"github.com/hujm2023/go-sms-protocol/verifhook"
 )
 
 type PDUStringer struct {
@@ -14,6 +16,7 @@ type PDUStringer struct {
 }
 
 func NewPDUStringer() *PDUStringer {
+	verifhook.Yield("stringer.new")
 	p := &PDUStringer{
 		buf: borrorStringBuilder(),
 	}
@@ -22,6 +25,7 @@ func NewPDUStringer() *PDUStringer {
 }
 
 func (p *PDUStringer) Release() {
+	verifhook.Yield("stringer.release")
 	restoreStringBuilder(p.buf)
 	p.e = nil
 	p.op = ""
